@@ -572,6 +572,12 @@ func (cs *CaseStatement) Idx0() file.Idx {
 
 // Idx1 implements Node.
 func (cs *CaseStatement) Idx1() file.Idx {
+	if len(cs.Consequent) == 0 {
+		if cs.Test == nil {
+			return cs.Case + 7 // default
+		}
+		return cs.Test.Idx1()
+	}
 	return cs.Consequent[len(cs.Consequent)-1].Idx1()
 }
 
